@@ -414,4 +414,33 @@ example : ∃ a img, Asm.assemble [] demoSrc = .ok a ∧ a.image = some img ∧ 
   · omega
   · rw [hn]; decide
 
+/-! ### the ORG check (fix for finding B1) seen from the command line -/
+
+/-- an `ORG` after code: the program has already emitted a byte (and defined a label) when the origin moves -/
+def orgLateSrc : List (List Char) :=
+  ["START LDA #$01\n".toList, "  ORG $0E00\n".toList, "  RTS\n".toList]
+
+/-- the assembler rejects it with a diagnostic … -/
+theorem orgLate_rejected : Asm.assemble [] orgLateSrc = .diag :=
+  orgRejectedNoInc_sound (fs := []) (by decide +kernel)
+
+/-- … and `assembler.main` ends with a failure exit status, writes no file (whatever the switches and the targets)
+and has no refusal to report -/
+theorem C11_orgLate_no_file (fs : FS) (args : AsmArgs) :
+    let r := asmMain fs [] orgLateSrc args
+    r.exit = 1 ∧ r.fs = fs ∧ r.refused = [] := by
+  intro r
+  have hr : r = { exit := 1, fs := fs } := asmMain_diag orgLate_rejected
+  rw [hr]
+  exact ⟨rfl, rfl, rfl⟩
+
+/-- the same lines with the `ORG` first are accepted (so the rejection is due to the position of the `ORG`) -/
+theorem orgFirst_accepted : ∃ a, Asm.assemble [] ["  ORG $0E00\n".toList, "START LDA #$01\n".toList, "  RTS\n".toList] = .ok a ∧
+    a.image = some [0x86, 0x01, 0x39] ∧ originAddr a.origin = 0x0E00 := by
+  have h : checkNoInc ["  ORG $0E00\n".toList, "START LDA #$01\n".toList, "  RTS\n".toList]
+      (fun a => a.image == some [0x86, 0x01, 0x39] && originAddr a.origin == 0x0E00) = true := by decide +kernel
+  obtain ⟨a, ha, hc⟩ := checkNoInc_sound (fs := []) h
+  simp only [Bool.and_eq_true, beq_iff_eq] at hc
+  exact ⟨a, ha, hc.1, hc.2⟩
+
 end CoCo.Props
